@@ -4,22 +4,21 @@
 # with one realistic change; overlaygen reads the copy instead of the repo file
 # (VERIF_OVERLAY_SUBST), the check is built by hand against that overlay and run
 # in the quick tier with a private VERIF_ROOT, so neither /repo nor the real
-# evidence/replays are touched.  The private known_findings.txt contains the
-# two lines proposed for the findings of the unchanged tree, so a mutant is
-# judged by what it ADDS (exit 1 = caught).
+# evidence/replays are touched (exit 1 = caught).  The two revert-* mutants
+# take back the repairs of the two defects this check found (commit bea6724 in
+# /repo): they must be caught again, with the original signatures.
 #   usage: props/c05sched/mutants.sh [name...]      (default: all)
 set -u
 ROOT=$(cd "$(dirname "$0")/../.." && pwd)
 REPO=${VERIF_REPO:-/repo}
 export GOFLAGS=-mod=mod GOPROXY=off GOSUMDB=off GOTOOLCHAIN=local
 SRC=chain/app/evm/verifycpuparallel.go
-ALL="exec-on-checking drop-done no-recheck-after-wait claim-without-cas fix-err-order fix-oribys-order fix-both"
+ALL="exec-on-checking drop-done no-recheck-after-wait claim-without-cas revert-err-fix revert-oribys-fix"
 [ $# -gt 0 ] && ALL="$*"
 for m in $ALL; do
   W=$ROOT/.work/c05sched/mut/$m
   rm -rf "$W"; mkdir -p "$W/root"
   cp "$ROOT/known_findings.txt" "$W/root/"
-  cat "$ROOT/props/c05sched/PROPOSED_KNOWN.txt" >> "$W/root/known_findings.txt"
   python3 - "$REPO/$SRC" "$W/mutant.go" "$m" <<'PY' || { echo "MUTANT $m: cannot apply (source changed?)"; continue; }
 import sys
 src, dst, m = sys.argv[1:4]
@@ -28,10 +27,6 @@ def rep(old, new, count=1):
     global s
     assert s.count(old) >= 1, "pattern not found: " + old
     s = s.replace(old, new, count)
-ERR_OLD = "\t\tatomic.StoreInt32(&tx.status, appTxStatusFailed)\n\t\ttx.err = err\n"
-ERR_NEW = "\t\ttx.err = err\n\t\tatomic.StoreInt32(&tx.status, appTxStatusFailed)\n"
-ORI_OLD = "\tatomic.StoreInt32(&cur.status, appTxStatusInit)\n\tif j == 0 {\n\t\tapptxQ[i][j].oribys = tptx\n\t}\n"
-ORI_NEW = "\tif j == 0 {\n\t\tapptxQ[i][j].oribys = tptx\n\t}\n\tatomic.StoreInt32(&cur.status, appTxStatusInit)\n"
 if m == "exec-on-checking":      # DESIGN C05 D: execute on Checking as well as Checked
     rep("\t\t\t\tcase appTxStatusChecked:\n", "\t\t\t\tcase appTxStatusChecked, appTxStatusChecking:\n")
 elif m == "drop-done":           # the per-tx WaitGroup is never released
@@ -42,12 +37,10 @@ elif m == "no-recheck-after-wait":  # trust Wait() instead of re-reading the sta
 elif m == "claim-without-cas":   # validators claim a tx with load+store instead of compare-and-swap
     rep("\tswapped := atomic.CompareAndSwapInt32(&tx.status, appTxStatusInit, appTxStatusChecking)\n",
         "\tswapped := atomic.LoadInt32(&tx.status) == appTxStatusInit\n\tif swapped {\n\t\tatomic.StoreInt32(&tx.status, appTxStatusChecking)\n\t}\n")
-elif m == "fix-err-order":       # proposed patch for finding 1 (must remove it, nothing else)
-    rep(ERR_OLD, ERR_NEW)
-elif m == "fix-oribys-order":    # proposed patch for finding 2
-    rep(ORI_OLD, ORI_NEW)
-elif m == "fix-both":
-    rep(ERR_OLD, ERR_NEW); rep(ORI_OLD, ORI_NEW)
+elif m == "revert-err-fix":      # defect 1 again: status Failed published before tx.err
+    rep("\t\ttx.err = err // the error must be visible before the status that announces it\n", "")
+elif m == "revert-oribys-fix":   # defect 2 again: status Init published before oribys
+    rep("\tif j == 0 {\n\t\t// publish the original bytes before the status that makes this entry visible\n\t\tapptxQ[i][j].oribys = tptx\n\t}\n", "")
 else:
     sys.exit("unknown mutant " + m)
 open(dst, "w").write(s)
